@@ -19,6 +19,12 @@ PRIORS = [
     ('one-tree-gp-and-others', '424242', [{'cls': 'GP', 'mod': 'gp', 'n_agents': 1, 'n_iter': 3}, {'cls': 'HC', 'mod': 'hc'},
                                           {'cls': 'PSO', 'mod': 'pso', 'seed': 5}, {'cls': 'IHS', 'mod': 'ihs', 'n_iter': 4}]),
 ]
+# a battery of unrelated tasks: a SearchSpace of the SAME number of variables with another box, swarm tasks (they record `local`),
+# a GSA task on a constant objective (equal fitnesses: 0/0 in the mass), a harmony search in a hypercomplex space
+PRIORS.append(('battery-other-box-swarm-gsa-const', '7', [
+    {'cls': 'PSO', 'mod': 'pso', 'box': [2.0, 9.0], 'n_agents': 4, 'n_iter': 3}, {'cls': 'AIWPSO', 'mod': 'aiwpso', 'n_agents': 3, 'n_iter': 2},
+    {'cls': 'GSA', 'mod': 'gsa', 'objective': 'const', 'n_agents': 3, 'n_iter': 2}, {'cls': 'HS', 'mod': 'hs', 'kind': 'hyper', 'box': [-10.0, 10.0], 'n_iter': 3},
+    {'cls': 'PSO', 'mod': 'pso', 'n_vars': 3, 'box': [0.5, 0.75]}, {'cls': 'PSO', 'mod': 'pso', 'n_vars': 1, 'box': [100.0, 101.0]}]))
 CHILD = os.path.join(os.path.dirname(os.path.abspath(__file__)), 'c05_child.py')
 
 
@@ -42,7 +48,7 @@ def main():
     focus = doc.get('focus')
     jobs = []
     for cls, mod in OPTS:
-        if focus and focus != cls:
+        if focus and focus != cls and not str(focus).startswith(cls + ':'):
             continue
         for (na, nv, ni) in sizes:
             if cls == 'WCA':
@@ -51,6 +57,19 @@ def main():
             for name, hs, prior in PRIORS:
                 jobs.append((cls, (na, nv, ni), seed, name, hs, {'cls': cls, 'mod': mod, 'n_agents': na, 'n_vars': nv, 'n_iter': ni, 'seed': seed, 'prior': prior}))
             jobs.append((cls, (na, nv, ni), seed, 'other-seed', '0', {'cls': cls, 'mod': mod, 'n_agents': na, 'n_vars': nv, 'n_iter': ni, 'seed': seed + 1, 'prior': []}))
+        # the same task in a hypercomplex space (agents rely on the untouched default unit bounds), and -- for two optimizers -- on an
+        # objective that silently produces NaN at a coordinate clipped to 0 (a leaked NumPy error mode would turn that into an exception)
+        variants = [] if cls == 'GP' else [('hyper', {'kind': 'hyper', 'box': [-10.0, 10.0], 'objective': 'hyper'})]
+        if cls in ('PSO', 'HC'):
+            variants.append(('singular', {'box': [0.0, 1.0], 'objective': 'singular', 'n_iter': 6}))
+        for vname, extra in variants:
+            na, nv, ni = sizes[0]
+            if cls == 'WCA':
+                na = max(na, 12)
+            seed = rng.randrange(1 << 30)
+            for name, hs, prior in PRIORS:
+                pl = dict({'cls': cls, 'mod': mod, 'n_agents': na, 'n_vars': nv, 'n_iter': ni, 'seed': seed, 'prior': prior}, **extra)
+                jobs.append((cls + ':' + vname, (na, nv, ni), seed, name, hs, pl))
     with ThreadPoolExecutor(max_workers=12) as ex:
         digs = list(ex.map(lambda j: child(j[5], j[4]), jobs))
     groups = {}
